@@ -122,6 +122,7 @@ class TocFetcher:
         self.finished_callback = finished_callback
         self.element_class = element_class
         self._useV2 = False
+        self._link = None
 
     def start(self):
         """Initiate fetching of the TOC."""
@@ -130,6 +131,8 @@ class TocFetcher:
         logger.debug('[%d]: Using V2 protocol: %d', self.port, self._useV2)
 
         logger.debug('[%d]: Start fetching...', self.port)
+        # The connection this download belongs to
+        self._link = self.cf.link
         # Register callback in this class for the port
         self.cf.add_port_callback(self.port, self._new_packet_cb)
 
@@ -152,6 +155,11 @@ class TocFetcher:
 
     def _new_packet_cb(self, packet):
         """Handle a newly arrived packet"""
+        if self.cf.link is not self._link:
+            # Left over from a connection that is gone, do not take part in the
+            # set-up of a later one
+            self.cf.remove_port_callback(self.port, self._new_packet_cb)
+            return
         chan = packet.channel
         if (chan != 0):
             return
